@@ -247,6 +247,45 @@ func c01Run(w *core.W) {
 			}
 		}
 	}
+	// F6: variables a call does not assign. A function's variable that this activation has not assigned is empty
+	// (nil), whatever an earlier call or expression left behind; with no outer binding of the name both readings of
+	// the scoping rule agree (the reference model flags the other case at run time, D-use-before-def).
+	w.Family("F6-unassigned-variables")
+	{
+		shapes := []string{
+			"if c v = \"set\"",
+			"if c {\n    v = \"set\"\n    w = \"wet\"\n  }",
+			"while c {\n    v = \"set\"\n    c = false\n  }",
+			"for i <- fromto(0, n) v = i",
+			"if c v = \"set\" else w = \"wet\"",
+			"for i, j <- fromto(0, n), elems(\"ab\") {\n    v = i\n    w = j\n  }",
+		}
+		reads := []string{"v", "v == v", "toa(v)", "if c v else v", "x = v"}
+		for np := 0; np <= 3; np++ {
+			params := []string{"pa", "pb", "pc"}[:np]
+			hot := append(append([]string{}, []string{"\"ha\"", "\"hb\"", "\"hc\""}[:np]...), "true", "2")
+			cold := append(append([]string{}, []string{"\"ca\"", "\"cb\"", "\"cc\""}[:np]...), "false", "0")
+			for _, sh := range shapes {
+				for _, rd := range reads {
+					def := "f = (" + strings.Join(append(append([]string{}, params...), "c", "n"), ", ") + ") -> {\n  " + sh + "\n  " + rd + "\n}"
+					callHot, callCold := "f("+strings.Join(hot, ", ")+")", "f("+strings.Join(cold, ", ")+")"
+					for _, sessn := range [][]string{
+						{def, callCold},
+						{def, callHot, callCold},
+						{def, callHot, callCold, callHot, callCold},
+						{def, "[\"sa\", \"sb\", \"sc\", \"sd\", \"se\", \"sf\"][0]", callCold},
+						{def, "g = () -> [" + callHot + ", toa(" + callCold + ")]", "g()"},
+						{def, "for q <- fromto(0, 2) t = " + callHot, "r = []", "for q <- fromto(0, 2) r = r + [toa(" + callCold + ")]", "r"},
+					} {
+						runSession(w, sessn, opt)
+						if w.Expired("time budget reached inside family") {
+							return
+						}
+					}
+				}
+			}
+		}
+	}
 	// F2: statement-position product
 	w.Family("F2-statement-position")
 	lv := 1
